@@ -39,11 +39,13 @@ Sec(z, tilt, k) == [z |-> Dig(z, 0),
 Doc(hdr, titles, tilts, zs) == [hdr |-> hdr, titles |-> titles,
                                 secs |-> [k \in DOMAIN tilts |-> Sec(zs[k], tilts[k], k)]]
 
-MCDocs == {
+QuickDocs == {
     Doc(Hdr1, <<1, 2>>, <<TiltB, TiltA, TiltC>>, <<0, 1, 2>>),
-    Doc(Hdr1, <<1>>, <<TiltC, TiltD, TiltE, TiltA>>, <<0, 1, 2, 3>>),
     Doc(Hdr2, <<>>, <<TiltF, TiltG, TiltH, TiltD>>, <<3, 2, 1, 0>>),
-    Doc(Hdr2, <<2, 3>>, <<TiltE>>, <<5>>),
+    Doc(Hdr2, <<2, 3>>, <<TiltE>>, <<5>>) }
+
+MCDocs == QuickDocs \cup {
+    Doc(Hdr1, <<1>>, <<TiltC, TiltD, TiltE, TiltA>>, <<0, 1, 2, 3>>),
     Doc(Hdr1, <<3>>, <<TiltH, TiltB>>, <<10, 4>>),
     Doc(Hdr2, <<1, 2, 3>>, <<TiltA, TiltD, TiltC, TiltF>>, <<0, 1, 2, 3>>) }
 
